@@ -213,17 +213,8 @@ theorem gen_rowsLess_step (it : OrdItem) (a b : SortVal) (its : List OrdItem) (a
   simp only [rowsLess, Gen.rowsLessStep]
   cases a.less b <;> cases d <;> cases n <;> cases a.isNull <;> cases b.isNull <;> simp
 
-/-- the --strict-equal prefixes that the translator leaves out are the reviewed ones (equal keys are tied;
-    two strings compare by their text; everything else falls through to the typed comparison) -/
-theorem gen_strict_prefix_reviewed :
-    Gen.strictPrefixLess =
-      ["{", "if", "bytes.Equal(v.SerializedKey.Bytes(),", "compareValue.SerializedKey.Bytes())", "{", "return",
-       "ternary.UNKNOWN", "}", "if", "v.SerializedKey.Bytes()[1]", "==", "83", "&&",
-       "compareValue.SerializedKey.Bytes()[1]", "==", "83", "{", "return", "ternary.ConvertFromBool(v.String", "<",
-       "compareValue.String)", "}", "}"] ∧
-    Gen.strictPrefixEquiv =
-      ["{", "return", "bytes.Equal(v.SerializedKey.Bytes(),", "compareValue.SerializedKey.Bytes())", "}"] := by
-  decide
+/- the --strict-equal blocks of SortValue.Less / SortValue.EquivalentTo are translated too: Props/C07Strict.lean
+   (gen_sortLessStrict_eq_model, gen_sortEquivStrict_eq_model) -/
 
 /-! ### OFFSET / LIMIT / WITH TIES: the statements of View.Offset and View.Limit and every write of the sort state,
     regenerated on every run (extract/limitfacts) and pinned against the reviewed lists of Ref/LimitFacts.lean -/
